@@ -9,11 +9,12 @@ package internal
 //@ func isHexDigit
 //@   property C03
 //@   pure
-//@   ensures result == ((c >= '0' && c <= '9') || (c >= 'A' && c <= 'F') || (c >= 'a' && c <= 'f'))  # name: exact
+//@   ensures result == hexDigit(c)  # name: exact
 
 //@ func fromHex
 //@   property C03
 //@   pure
+//@   ensures hexDigit(c) ==> result == hexVal(c)                   # name: value
 //@   ensures c >= '0' && c <= '9' ==> result == c - '0'            # name: digit
 //@   ensures c >= 'a' && c <= 'f' ==> result == c - 'a' + 10       # name: lower
 //@   ensures c >= 'A' && c <= 'F' ==> result == c - 'A' + 10       # name: upper
@@ -789,3 +790,35 @@ package internal
 //@   pure
 //@   requires a != nil && b != nil
 //@   ensures result == (lower(a.Scheme) == lower(b.Scheme) && lower(nameOfHost(a.Host)) == lower(nameOfHost(b.Host)) && effPort(a) == effPort(b))    # name: scheme-host-port
+
+// ---- C03: percent-encoding normalisation (RFC 3986 §6.2.2.1-6.2.2.2) ------------------------------
+//@ spec func hexDigit(c byte) bool = (c >= '0' && c <= '9') || (c >= 'A' && c <= 'F') || (c >= 'a' && c <= 'f')
+//@ spec func hexVal(c byte) byte = ite(c >= '0' && c <= '9', c - '0', ite(c >= 'a' && c <= 'f', c - 'a' + 10, c - 'A' + 10))
+//@ spec func unreservedB(c byte) bool = (c >= 'a' && c <= 'z') || (c >= 'A' && c <= 'Z') || (c >= '0' && c <= '9') || c == '-' || c == '.' || c == '_' || c == '~'
+//@ spec func hexU(n byte) byte = ite(n < 10, '0' + n, 'A' + n - 10)
+//@ spec func pctUpper(v byte) string = "%" + byteStr(hexU(v >> 4)) + byteStr(hexU(v & 15))
+//@ spec func isTriplet(s string, i int) bool = s[i] == '%' && i + 2 < len(s) && hexDigit(s[i+1]) && hexDigit(s[i+2])
+//@ spec func tripletVal(s string, i int) byte = hexVal(s[i+1]) << 4 | hexVal(s[i+2])
+// np(s, i): the normal form of the first i bytes of s. DEFINITION (these axioms are the specification):
+// an escape of an unreserved ASCII byte is decoded, any other escape gets upper-case hex digits, every
+// other byte (including a stray '%') is copied.
+//@ spec func np(s string, i int) string
+//@ axiom np-empty: forall s string :: np(s, 0) == ""
+//@ axiom np-copy: forall s string, i int :: 0 <= i && i < len(s) && !isTriplet(s, i) ==> np(s, i + 1) == app1(np(s, i), s[i])
+//@ axiom np-decode: forall s string, i int :: 0 <= i && i < len(s) && isTriplet(s, i) && unreservedB(tripletVal(s, i)) ==> np(s, i + 3) == app1(np(s, i), tripletVal(s, i))
+//@ axiom np-upper: forall s string, i int :: 0 <= i && i < len(s) && isTriplet(s, i) && !unreservedB(tripletVal(s, i)) ==> np(s, i + 3) == np(s, i) + pctUpper(tripletVal(s, i))
+
+//@ func isUnreserved
+//@   property C03
+//@   pure
+//@   ensures 0 <= r && r <= 255 ==> result == unreservedB(byte(r))          # name: ascii-only
+//@   ensures r < 0 || r > 127 ==> !result                                    # name: non-ascii-is-reserved
+//@ func percentEncodeUpper
+//@   property C03
+//@   pure
+//@   ensures result == pctUpper(b)                                           # name: upper-hex-escape
+//@ func normalizePercentEncoding
+//@   property C03 C09
+//@   pure
+//@   ensures result == np(s, len(s))                                         # name: equals-normal-form
+//@   loop 0 invariant 0 <= i && i <= len(s) && sbc[&b] == np(s, i)
